@@ -7,6 +7,12 @@
 //            rres = (panicked errkind pkt consumed wanted maxcap)
 // input    (3 data (chunk ...))                                  WriteLenData / ReadLenData
 // observed ((panicked ret err (#write ...)) (panicked errkind #data consumed wanted maxcap))
+// input    (4 ver nref bodylen seed thrArg)                      frame-size / reference-count limit probe:
+// observed (panicked ret err nbytes nwrites decoded)             a packet with nref references and an
+//                                                                incompressible body of bodylen bytes (regenerated
+//                                                                from the seed), no cipher, thrArg >= bodylen so that
+//                                                                nothing is compressed; only sizes are recorded, so
+//                                                                that frames of 8 MiB stay out of the case file
 package main
 
 import (
@@ -16,6 +22,7 @@ import (
 	"log"
 	"math"
 
+	"qchen.fun/fatchoy"
 	"qchen.fun/fatchoy/codec"
 	"qchen.fun/fatchoy/packet"
 	. "verifharness/c01lib"
@@ -133,12 +140,78 @@ func runLenData(in Sx) Sx {
 		List(Bool(rp), Int(int64(ErrKind(rerr))), Bytes(got), Int(int64(r.Pos)), Int(int64(r.Wanted-r.Start)), Int(int64(r.MaxCap))))
 }
 
+// countWriter keeps the bytes (for reading back) and counts the Write calls
+type countWriter struct {
+	b      []byte
+	nwrite int
+}
+
+func (w *countWriter) Write(p []byte) (int, error) {
+	w.b = append(w.b, p...)
+	w.nwrite++
+	return len(p), nil
+}
+
+func limitPacket(ver, nref, bodylen int, seed uint64) *packet.Packet {
+	rng := NewRng(seed)
+	p := packet.Make()
+	p.Cmd = int32(rng.Next())
+	p.Seq_ = uint16(rng.Next())
+	p.Flg = 0x20
+	p.Type_ = 2
+	p.Node_ = 0x01020304
+	for i := 0; i < nref; i++ {
+		p.AddRefers(fatchoy.NodeID(uint32(rng.Next())))
+	}
+	if bodylen > 0 {
+		p.Body_ = GenBytes(uint32(seed)|1, bodylen, 255)
+	}
+	return p
+}
+
+func runLimit(in Sx) Sx {
+	ver, nref, bodylen, seed, thr := in.At(1).AsInt(), in.At(2).AsInt(), in.At(3).AsInt(), in.At(4).Uint64(), in.At(5).AsInt()
+	p := limitPacket(ver, nref, bodylen, seed)
+	orig := limitPacket(ver, nref, bodylen, seed)
+	enc := NewEncoder(ver, thr)
+	w := &countWriter{}
+	var n int
+	var err error
+	panicked, _ := Catch(func() { n, err = enc.WritePacket(w, nil, p) })
+	decoded := false
+	if !panicked && err == nil {
+		frameLen := len(w.b)
+		r := NewChunkReader(append(w.b, 1, 2, 3), nil)
+		q := packet.Make()
+		var rerr error
+		if pn, _ := Catch(func() { rerr = enc.ReadPacket(r, nil, q) }); !pn && rerr == nil && r.Pos == frameLen {
+			var got, want []byte
+			if q.Body_ != nil {
+				got = q.BodyToBytes()
+			}
+			if orig.Body_ != nil {
+				want = orig.BodyToBytes()
+			}
+			decoded = q.Cmd == orig.Cmd && q.Seq_ == orig.Seq_ && q.Flg == orig.Flg && bytes.Equal(got, want)
+			if ver == 2 {
+				decoded = decoded && q.Type_ == orig.Type_ && q.Node_ == orig.Node_ && len(q.Refers_) == len(orig.Refers_)
+				for i := range q.Refers_ {
+					decoded = decoded && i < len(orig.Refers_) && q.Refers_[i] == orig.Refers_[i]
+				}
+			}
+		}
+	}
+	return List(Bool(panicked), Int(int64(n)), Bool(err != nil), Int(int64(len(w.b))), Int(int64(w.nwrite)), Bool(decoded))
+}
+
 func run(in Sx) Sx {
 	switch in.At(0).Int64() {
 	case 1:
 		return runStream(in)
 	case 3:
 		return runLenData(in)
+	case 4:
+		return runLimit(in)
 	}
 	panic("c01: unknown case " + in.String())
 }
@@ -352,6 +425,52 @@ func gen(a Args, out *Out) {
 			emit("v1-limit", List(Int(1), Int(1), Int(0), Int(0), Uint(1), List(p), ListOf(nil)))
 		}
 	}
+	// 2b. both limits of both formats, with references: total frame size limit-1, limit, limit+1 and
+	// the same shifted by 4*nref (a size check that forgets or double-counts the reference bytes
+	// shows exactly there); reference counts 255 / 256; sizes only (8 MiB frames stay in Go)
+	for _, ver := range []int{1, 2} {
+		hs, limit := codec.V1HeaderSize, codec.V1MaxPayloadBytes
+		if ver == 2 {
+			hs, limit = codec.V2HeaderSize, codec.V2MaxPayloadBytes
+		}
+		nrefs := []int{0, 1, 2, 255}
+		if a.Thorough() {
+			nrefs = append(nrefs, 3, 17, 100, 254, rng.Intn(256), rng.Intn(256))
+		}
+		for _, nref := range nrefs {
+			for _, total := range []int{limit - 1, limit, limit + 1, limit + 4*nref - 1, limit + 4*nref, limit + 4*nref + 1, limit - 4*nref, limit - 4*nref + 1} {
+				bl := total - hs
+				if ver == 2 {
+					bl -= 4 * nref
+				}
+				if bl < 0 {
+					continue
+				}
+				emit("limit", List(Int(4), Int(int64(ver)), Int(int64(nref)), Int(int64(bl)), Uint(rng.Next()&0xFFFFFFFF), Int(1<<30)))
+				out.Count("limit-probe:ver" + string(rune('0'+ver)))
+			}
+		}
+		// the same boundary with the default threshold: the (incompressible) body is compressed, the
+		// wire size is zlib's, so only the invariants are checked (an error writes nothing, a success
+		// reports what it wrote, stays within the limit and decodes back)
+		for _, nref := range []int{1, 255} {
+			for _, d := range []int{-4 * nref, 0} {
+				bl := limit - hs - 700 + d // zlib stores random data with a little overhead
+				if ver == 1 {
+					bl = limit - hs - 30 + d
+				}
+				if bl < 0 {
+					continue
+				}
+				emit("limit", List(Int(4), Int(int64(ver)), Int(int64(nref)), Int(int64(bl)), Uint(rng.Next()&0xFFFFFFFF), Int(0)))
+				out.Count("limit-probe:compressed")
+			}
+		}
+		for _, nref := range []int{255, 256, 257, 300} {
+			emit("limit", List(Int(4), Int(int64(ver)), Int(int64(nref)), Int(int64(rng.Intn(100))), Uint(rng.Next()&0xFFFFFFFF), Int(1<<30)))
+			out.Count("limit-probe:refs")
+		}
+	}
 	// 3. the length-prefixed helper
 	for i := 0; i < nlen; i++ {
 		n := rng.PickInt(0, 1, 2, 3, rng.Intn(40), rng.Intn(300), rng.Intn(3000))
@@ -379,10 +498,6 @@ func sweep(rng *Rng, n int, thorough bool, out *Out) {
 		bl := bodyLens(rng, ver, thr)
 		if rng.Chance(1, 50) {
 			bl = rng.PickInt(61425, 61426, 61427, 61440, 65535, 65536)
-		}
-		if thorough && rng.Chance(1, 400) && ver == 2 {
-			bl = codec.V2MaxPayloadBytes - codec.V2HeaderSize + rng.PickInt(-1, 0, 1)
-			out.Count("sweep:v2-limit")
 		}
 		psx, kind := genPacket(rng, ver, thr, bl, rng.PickInt(1, 1, 2, 3, 5), nil2(out))
 		if kind != "plain" {
